@@ -403,7 +403,9 @@ class Report:
         ev = {"property_id": self.id, "tier": self.tier, "seed": self.seed, "level": self.level,
               "coverage": self.coverage, "assumptions": self.assumptions,
               "wall_s": round(time.time() - self.t0, 2), "violations": len(self.violations)}
-        with open(os.path.join(VERIF, "evidence", self.id + ".json"), "w") as f:
+        # a --replay run covers one case: it must not overwrite the evidence of the real check
+        name = self.id + (".replay.json" if getattr(self, "is_replay", False) else ".json")
+        with open(os.path.join(VERIF, "evidence", name), "w") as f:
             json.dump(ev, f, indent=1, default=str)
         return rc
 
